@@ -258,6 +258,14 @@ def fam_c13(tier, rng):
                                 continue
                             f = copy.deepcopy(base)
                             f["store_fail_at"] = [k]
+                            if k == 1:
+                                # the same with a single slot: a failed store must not cost the worker its slot (the job that
+                                # arrives later still runs)
+                                f1 = copy.deepcopy(f)
+                                f1["worker"]["tasks_limit"] = 1
+                                b1 = copy.deepcopy(base)
+                                b1["worker"]["tasks_limit"] = 1
+                                scs += [b1, f1]
                             scs.append(f)
     return scs
 
